@@ -392,6 +392,8 @@ def response_problem(resp):
                 return 'FETCH () carries no data item: msg-att has at least one'
             for k in range(0, len(items), 2):
                 name, v = (atom(items[k]) or b'').upper(), items[k + 1]
+                if b'.PEEK' in name:
+                    return f'{name.decode("latin1")} names a data item by its request spelling: a response says BODY[..] / BINARY[..]'
                 if name in (b'UID', b'RFC822.SIZE', b'MODSEQ') and not (_is_number(v) and (name != b'UID' or int(v.val) > 0)):
                     return f'{name.decode()} is not a number: {v!r}'
                 if name == b'INTERNALDATE' and not (isinstance(v, Tok) and v.kind == 'q' and _DATE_RE.match(v.val)):
